@@ -75,6 +75,9 @@ pub struct SendSt {
     pub finished_events: u32,
     pub stopped_events: u32,
     pub opened_step: u64,
+    /// 0 = opened before a 0-RTT rejection (or no 0-RTT involved), 1 = opened after one: part
+    /// of the data-pattern key, so early data surfacing after a rejection cannot match
+    pub epoch: u8,
 }
 
 #[derive(Clone, Debug, PartialEq, Eq)]
@@ -110,6 +113,16 @@ pub struct SideState {
     pub bytes_written: u64,
     /// cap on the size of responses this side writes on accepted bidi streams
     pub resp_cap: u64,
+    /// the application started before `Connected` (0-RTT)
+    pub early: bool,
+    /// what `accepted_0rtt()` said at `Connected` (None: not an early side / not yet known)
+    pub early_accepted: Option<bool>,
+    pub epoch: u8,
+    /// streams opened per direction in the current epoch (ids must be handed out in sequence)
+    pub opened_count: [u64; 2],
+    /// bytes written on streams that were wiped by a 0-RTT rejection
+    pub early_bytes_rejected: u64,
+    pub early_streams: u32,
 }
 
 #[derive(Clone, Debug)]
@@ -178,6 +191,13 @@ impl Workload {
         match ev {
             Event::Connected => {
                 self.sides.get_mut(&inc).unwrap().connected = true;
+                if self.sides[&inc].early {
+                    let accepted = w.conns[inc as usize].conn.accepted_0rtt();
+                    self.sides.get_mut(&inc).unwrap().early_accepted = Some(accepted);
+                    if !accepted {
+                        self.early_rejected(w, inc);
+                    }
+                }
                 self.kick(w, inc);
             }
             Event::HandshakeConfirmed => {
@@ -276,6 +296,45 @@ impl Workload {
         }
     }
 
+    /// Start the application before the handshake completes (0-RTT).
+    pub fn kick_early(&mut self, w: &mut World, inc: u32) {
+        self.sides.get_mut(&inc).unwrap().early = true;
+        self.kick(w, inc);
+        let s = self.sides.get_mut(&inc).unwrap();
+        s.early_streams = s.sends.len() as u32;
+    }
+
+    /// `Connected` arrived and the server did not accept early data: every early stream must
+    /// report that it is gone, and the application starts over as on a fresh connection.
+    fn early_rejected(&mut self, w: &mut World, inc: u32) {
+        let sends: Vec<u64> = self.sides[&inc].sends.keys().copied().collect();
+        let recvs: Vec<u64> = self.sides[&inc].recvs.keys().copied().collect();
+        for sid in sends {
+            let r = w.conn_mut(inc).send_stream(sid_from(sid)).write(&[0x5a]);
+            if !matches!(r, Err(WriteError::ClosedStream)) {
+                viol(&self.unchecked, w, inc, "early-stream-usable-after-rejection", format!("inc{} 0-RTT was rejected but write() on early stream {} returned {:?}", inc, sid, r));
+                return;
+            }
+        }
+        for sid in recvs {
+            let mut rs = w.conn_mut(inc).recv_stream(sid_from(sid));
+            let r = rs.read(true).map(|_| ());
+            if !matches!(r, Err(ReadableError::ClosedStream)) {
+                viol(&self.unchecked, w, inc, "early-stream-usable-after-rejection", format!("inc{} 0-RTT was rejected but read() on early stream {} returned {:?}", inc, sid, r));
+                return;
+            }
+        }
+        w.probes.hit("early_rejected_with_streams");
+        let s = self.sides.get_mut(&inc).unwrap();
+        s.early_bytes_rejected = s.sends.values().map(|st| st.written).sum();
+        s.sends.clear();
+        s.recvs.clear();
+        s.next_plan = 0;
+        s.open_blocked = [false; 2];
+        s.opened_count = [0; 2];
+        s.epoch = 1;
+    }
+
     /// initial attempt once connected (or for 0-RTT, once the connection exists)
     pub fn kick(&mut self, w: &mut World, inc: u32) {
         self.open_more(w, inc);
@@ -305,6 +364,13 @@ impl Workload {
                 Some(id) => {
                     let sid = sid_u64(id);
                     s.next_plan += 1;
+                    let epoch = s.epoch;
+                    let expect = s.opened_count[plan.dir as usize];
+                    s.opened_count[plan.dir as usize] += 1;
+                    if id.index() != expect || id.dir() != plan.dir || id.initiator() != (if s.is_client { Side::Client } else { Side::Server }) {
+                        viol(&self.unchecked, w, inc, "open-returned-unexpected-id", format!("inc{} open({:?}) returned stream {} but {} streams of that direction were opened before{}", inc, plan.dir, sid, expect, if epoch == 1 { " since 0-RTT was rejected" } else { "" }));
+                        return;
+                    }
                     if s.sends.contains_key(&sid) {
                         viol(&self.unchecked, w, inc, "open-returned-duplicate-id", format!("inc{} open returned stream {} twice", inc, sid));
                         return;
@@ -325,6 +391,7 @@ impl Workload {
                             finished_events: 0,
                             stopped_events: 0,
                             opened_step: step,
+                            epoch,
                         },
                     );
                     if plan.dir == Dir::Bi {
@@ -396,6 +463,7 @@ impl Workload {
                         finished_events: 0,
                         stopped_events: 0,
                         opened_step: step,
+                        epoch: 0,
                     },
                 );
                 self.pump_send(w, inc, sid);
@@ -405,7 +473,8 @@ impl Workload {
     }
 
     pub fn pump_send(&mut self, w: &mut World, inc: u32, sid: u64) {
-        let key = stream_key(WORLD_KEY, self.conn_key(w, inc), self.sides[&inc].is_client, sid);
+        let epoch = self.sides[&inc].sends.get(&sid).map_or(0, |st| st.epoch) as u64;
+        let key = stream_key(WORLD_KEY, self.conn_key(w, inc), self.sides[&inc].is_client, sid | epoch << 62);
         let id = sid_from(sid);
         loop {
             let s = self.sides.get_mut(&inc).unwrap();
@@ -582,8 +651,8 @@ impl Workload {
         }
         // verify
         let peer = self.peer(w, inc);
-        let key = stream_key(WORLD_KEY, self.conn_key(w, inc), !is_client, sid);
         let ledger = if peer != NO_INC { self.sides.get(&peer).and_then(|p| p.sends.get(&sid)).cloned() } else { None };
+        let key = stream_key(WORLD_KEY, self.conn_key(w, inc), !is_client, sid | (ledger.as_ref().map_or(0, |l| l.epoch) as u64) << 62);
         let check = self.cfg.check_data && peer != NO_INC && self.sides.contains_key(&peer) && !self.unchecked.contains(&self.conn_key(w, inc));
         for (off, bytes) in &got {
             let len = bytes.len() as u64;
